@@ -8,7 +8,6 @@ import (
 	"path/filepath"
 
 	"github.com/protobom/protobom/pkg/sbom"
-	"github.com/sirupsen/logrus"
 	"google.golang.org/protobuf/proto"
 	"sigs.k8s.io/release-utils/util"
 )
@@ -63,7 +62,7 @@ func (fs *FileSystem) Store(bom *sbom.Document, opts *StoreOptions) error {
 		return fmt.Errorf("the specified filsystem backend patch is not a directory")
 	}
 
-	if bom.Metadata == nil || bom.Metadata.Id == "" {
+	if bom == nil || bom.Metadata == nil || bom.Metadata.Id == "" {
 		return fmt.Errorf("unable to persist document: no document id set")
 	}
 
@@ -106,11 +105,17 @@ func (fs *FileSystem) Retrieve(id string, _ *RetrieveOptions) (*sbom.Document, e
 
 	data, err := os.ReadFile(filepath.Join(fs.Options.Path, filename))
 	if err != nil {
-		logrus.Fatal(fmt.Errorf("reading protobom data from disk: %v", err))
+		return nil, fmt.Errorf("reading protobom data from disk: %w", err)
 	}
 	bom := &sbom.Document{}
 	if err := proto.Unmarshal(data, bom); err != nil {
-		logrus.Fatal(fmt.Errorf("unmarshaling protobom data: %v", err))
+		return nil, fmt.Errorf("unmarshaling protobom data: %w", err)
+	}
+
+	// An entry is only valid if it holds the document it is keyed by. This
+	// rejects empty or damaged entries that still decode as a protobuf message.
+	if bom.Metadata == nil || bom.Metadata.Id != id {
+		return nil, fmt.Errorf("stored entry does not contain document %q", id)
 	}
 
 	return bom, nil
